@@ -31,6 +31,7 @@ CHECKFNS = [ULN, NTP, CONJ, CNT]
 
 ASSUMPTIONS = [
     "node-label names, node ids and edge ids are canonicalised to naturals by the harness: implicit (int) ids get even codes, explicit (str) ids odd codes, and among ids of the same kind the code order is Python's own order on the ids (Python's str/int comparison is trusted, not modelled)",
+    "ids invented by the implementation (fresh implicit ids of re-created edges, `id(self)`) are renumbered per output rule in edge-list order by the model's own fresh_eid rule (least even number above all input ids and above the edges before it); only their freshness and kind, not their numeric value, are meaningful",
     "label names are passed as lists of code points (all < 5000 in the generated inputs); f-string formatting of str and int is modelled by list concatenation and Coq's Nat.to_uint decimal printer",
     "input grammars satisfy the invariants the fggs API maintains (wf_hrg_b: label tables cover the rules, ids unique per graph, edges typed); this is re-checked by the model on every case (verdict 20 otherwise). Under it Graph.add_edge_label cannot raise inside conjoin_rules, so the right-hand sides' own label tables are not modelled",
     "derivation trees name rule occurrences (index in all_rules); children are ordered by the id order of the nonterminal edges",
@@ -99,6 +100,12 @@ def build_pair(ps):
 
 # ---------------------------------------------------------------------------- canonicalisation
 class Ctx:
+    """Canonical numbering.  The ids of the two INPUT grammars are numbered first (even = int,
+    odd = str, Python's own order within a kind).  An id that occurs only in the implementation's
+    output is an *invented* id (a fresh implicit id, `id(self)` of a re-created edge): it is
+    renumbered per rule, in the order of the rule's edge list, to the least even number above
+    `base` (the largest input code) and above the codes of the edges before it in that rule --
+    exactly Model.Conj.fresh_eid."""
     def __init__(self, hrgs):
         nl, ids = {}, set()
         for h in hrgs:
@@ -115,23 +122,34 @@ class Ctx:
         self.ids = {}
         for k, i in enumerate(ints): self.ids[("i", i)] = 2 * k
         for k, i in enumerate(strs): self.ids[("s", i)] = 2 * k + 1
-        self.n_int, self.n_str = len(ints), len(strs)
+        self.base = 0                    # = Model.Conj.id_bound: max code of a node or edge of a rule
+        for h in hrgs:
+            for r in h.all_rules():
+                for x in list(r.rhs.nodes()) + list(r.rhs.edges()):
+                    self.base = max(self.base, self.id(x.id))
+        self.invented = 0
     def nlab(self, l):
         return self.nl.setdefault(l.name, len(self.nl))
-    def id(self, i):
+    def id(self, i, local=None, before=()):
         key = ("i", i) if isinstance(i, int) else ("s", i)
-        if key not in self.ids:          # an id invented by the implementation: give it a fresh code
-            if key[0] == "i": self.ids[key] = 2 * self.n_int; self.n_int += 1
-            else: self.ids[key] = 2 * self.n_str + 1; self.n_str += 1
-        return self.ids[key]
+        if key in self.ids: return self.ids[key]
+        if local is None: local = {}
+        if key not in local:             # an id invented by the implementation
+            m = max([self.base] + list(before) + list(local.values()))
+            local[key] = 2 + 2 * (m // 2) if key[0] == "i" else 3 + 2 * (m // 2)
+            self.invented += 1
+        return local[key]
     def el(self, l):
         return ([ord(c) for c in l.name], [self.nlab(x) for x in l.type], bool(l.is_terminal))
-    def node(self, n): return (self.id(n.id), self.nlab(n.label))
-    def edge(self, e): return (self.id(e.id), self.el(e.label), [self.node(n) for n in e.nodes])
+    def node(self, n, local=None): return (self.id(n.id, local), self.nlab(n.label))
     def rule(self, r):
         g = r.rhs
-        return (self.el(r.lhs), ([self.node(n) for n in g.nodes()], [self.edge(e) for e in g.edges()],
-                                 [self.node(n) for n in g.ext]))
+        local = {}
+        edges = []
+        for e in g.edges():
+            code = self.id(e.id, local, [c for c, _, _ in edges])
+            edges.append((code, self.el(e.label), [self.node(n, local) for n in e.nodes]))
+        return (self.el(r.lhs), ([self.node(n, local) for n in g.nodes()], edges, [self.node(n, local) for n in g.ext]))
     def hrg(self, h):
         groups = []
         for r in h.all_rules():             # all_rules = concatenation of the per-lhs lists, lhs keys distinct
@@ -154,11 +172,11 @@ def observe(ps):
         ntm = nonterminal_pairs(g1, g2)
     except Exception as e:
         ntm_exc = repr(e)
-    ctx = Ctx([g1, g2] + ([out] if out is not None else []))
+    ctx = Ctx([g1, g2])
     w1, w2 = ctx.hrg(g1), ctx.hrg(g2)
     wm = None if ntm is None else [(ctx.el(a), ctx.el(b), ctx.el(v)) for (a, b), v in ntm.items()]
     wo = None if out is None else ctx.hrg(out)
-    return dict(w1=w1, w2=w2, ntm=wm, ntm_exc=ntm_exc, code=code, exc=exc, out=wo)
+    return dict(w1=w1, w2=w2, ntm=wm, ntm_exc=ntm_exc, code=code, exc=exc, out=wo, invented=ctx.invented)
 
 # ---------------------------------------------------------------------------- generators
 NT_NAMES_1 = ["S", "X", "X,Y", "A", "<S,S>"]
@@ -213,7 +231,8 @@ def gen_pair(rng, force=None):
     els1, els2 = e1 + t1, e2 + t2
     def by_type(els, ty, term):
         return [i for i, (n, t, tm) in enumerate(els) if t == ty and tm == term]
-    implicit = force == "implicit" or force == "self" and rng.random() < 0.3
+    implicit = force in ("implicit", "mixed") or force == "self" and rng.random() < 0.5
+    mixed = force == "mixed" or force == "self" and rng.random() < 0.5
     # skeletons
     nsk = rng.randint(1, 4)
     rules1, rules2 = [], []
@@ -268,7 +287,7 @@ def gen_pair(rng, force=None):
             for s, ty, a in sl:
                 c = by_type(els, ty, False)
                 if not c: return None
-                tok = ("i:%s" % s) if implicit else ("s:" + s)
+                tok = ("i:%s" % s) if implicit and not (mixed and rng.random() < 0.5) else ("s:" + s)
                 edges.append((tok, rng.choice(c), a))
             for _ in range(rng.choice([0, 1, 1, 2])):
                 cands = [i for i, (n, t, tm) in enumerate(els) if tm and all(any(l == nl for l in ndl) for nl in t)]
@@ -305,6 +324,7 @@ def gen_pair(rng, force=None):
     if force == "self":
         mode = rng.choice(["self", "copy"]); feats.add("self_conjunction")
     if implicit: feats.add("implicit_ids")
+    if implicit and mixed: feats.add("mixed_ids")
     if force == "sharedtid": feats.add("shared_terminal_edge_ids")
     if len({(r["lhs"], len(r["nodes"])) for r in rules1}) < len(rules1): feats.add("several_rules_per_skeleton")
     return dict(nlabels=["N", "M"], g1=g1, g2=g2, mode=mode, features=sorted(feats))
@@ -325,14 +345,11 @@ def gen_uln(rng):
 
 # ---------------------------------------------------------------------------- run
 CAP = 300
-KNOWN = {5: "conjoinable_pair_shares_terminal_edge_id", 6: "conjoinable_pair_has_implicit_nonterminal_edge_id"}
 CONJ_MSG = {
     1: "terminal/terminal label conflict and ValueError do not coincide",
-    2: "conjoin_hrgs raised although there is no terminal conflict (and the input is in no known defect class)",
+    2: "conjoin_hrgs raised although there is no terminal label conflict",
     3: "output grammar is not the set of conjunctions of the conjoinable rule pairs (verified oracle conj_hrg_ok rejects it)",
     4: "nt_map is not injective / fresh / total (verified oracle ntmap_ok rejects it)",
-    5: "conjoin_hrgs raises ValueError: a conjoinable pair of rules shares a terminal-edge id",
-    6: "conjoin_hrgs raises TypeError: a conjoinable pair of rules has a nonterminal edge with an implicit (int) id",
     7: "number of derivations of the conjunction differs from the number of pairable pairs of derivations",
     10: "output grammar differs from the Gallina model's (order of labels / rules / edges) although the oracles accept it",
     11: "exception class differs from the Gallina model's",
@@ -374,12 +391,12 @@ def run(tier, seed):
       return nk1
     # ---- grammar pairs
     forced = ["clash", "tconflict", "tname", "dup", "tnt", "clash", "tconflict", "tname"]
-    defect_stream = ["sharedtid", "implicit", "self"]
+    defect_stream = ["sharedtid", "implicit", "self", "mixed", "self"]
     specs = []
     for i in range(n_pairs):
         if i < len(forced) * 3: f = forced[i % len(forced)]
         elif i % 10 == 0: f = rng.choice(forced)
-        elif i % 10 == 1: f = defect_stream[(i // 10) % 3]
+        elif i % 10 in (1, 2): f = defect_stream[(i // 10 + i) % 5]
         else: f = None
         specs.append(gen_pair(rng, f))
     nvals, cvals, kvals, info = [], [], [], []
@@ -419,9 +436,9 @@ def run(tier, seed):
         if c:
             violations.append(Violation("conjoin_hrgs: " + CONJ_MSG.get(c, "code %d" % c), case=dict(kind="pair", spec=ps),
                                         observed=dict(exception=ob["exc"], output=ob["out"]),
-                                        oracle={1: "has_tt_conflict", 2: "has_tt_conflict", 3: "conj_hrg_ok", 4: "ntmap_ok", 5: "has_tt_conflict", 6: "has_tt_conflict"}.get(c),
+                                        oracle={1: "has_tt_conflict", 2: "has_tt_conflict / C17_total", 3: "conj_hrg_ok", 4: "ntmap_ok"}.get(c),
                                         corr="C17_rule / C17_names / corr:conj", failing_input_found=(c < 10),
-                                        call="fggs.conjoin_hrgs(g1, g2)", finding_key=KNOWN.get(c)))
+                                        call="fggs.conjoin_hrgs(g1, g2)"))
     skipped = 0; counted = 0
     for i, c in zip(kidx, kcodes):
         ps, ob = info[i]
@@ -444,11 +461,11 @@ def run(tier, seed):
     samples.append(dict(unique_label_name=dict(name=ucases[0][0], names=ucases[0][1], out=ucases[0][2])))
     cov = dict(evaluations=len(uvals) + len(nvals) + len(cvals) + len(kvals),
                distinct_nontrivial=distinct + udist,
-               rule="grammar pairs over shared skeletons (shared node ids, shared nonterminal-edge ids in independently shuffled insertion order, 1-3 rules per skeleton and grammar, skeletons in one grammar only, near-miss non-conjoinable variants, duplicate rules, the X+'Y,Z' / 'X,Y'+Z name clash, terminals named like pairs, terminal/terminal conflicts, terminal-vs-nonterminal name reuse, self-conjunction, implicit ids, shared terminal-edge ids); non-trivial = conjoin_hrgs returned a grammar with >= 2 rules, distinct by spec.  unique_label_name: names with gaps and decimal near-misses; non-trivial = result differs from the name, distinct by (name, names)",
+               rule="grammar pairs over shared skeletons (shared node ids, shared nonterminal-edge ids in independently shuffled insertion order, 1-3 rules per skeleton and grammar, skeletons in one grammar only, near-miss non-conjoinable variants, duplicate rules, the X+'Y,Z' / 'X,Y'+Z name clash, terminals named like pairs, terminal/terminal conflicts, terminal-vs-nonterminal name reuse, self-conjunction, implicit and mixed ids, shared terminal-edge ids); non-trivial = conjoin_hrgs returned a grammar with >= 2 rules, distinct by spec.  unique_label_name: names with gaps and decimal near-misses; non-trivial = result differs from the name, distinct by (name, names)",
                samples=samples, feature_histogram=hist, conj_outcomes=outcomes,
                derivation_count=dict(grammars_counted=counted, skipped_over_cap=skipped, depth=3, cap=CAP),
                kernel_reevaluated=nk1 + nk2 + nk3 + nk4,
-               known_finding_predicates=KNOWN,
+               invented_ids_renumbered=sum(ob["invented"] for ps, ob in info),
                open_items=OPEN_ITEMS)
     return cov, violations
 
@@ -482,6 +499,6 @@ def replay(path):
 MANIFEST = dict(
     level="proof",
     text="Coq theorems about a Gallina model that follows fggs/conjunction.py and utils.unique_label_name statement by statement: C17_rule (structure and well-typedness of a conjoined rule), C17_names (nt_map total, injective, fresh; unique_label_name returns the first free name within |names|+1 probes; terminal conflicts raise ValueError), C17_bijection (pair/unpair are mutually inverse between derivations of the conjunction and pairable pairs, every depth, on rule occurrences).  The model is tied to /repo by comparing nt_map, the output grammar (labels, start, rules, nodes/edges/ext in order) and the exception class on generated grammar pairs, by judging every output with the verified oracles ntmap_ok / conj_hrg_ok / unique_ok, and by counting derivations of the implementation's output grammar to depth 3 against the pairable pairs.",
-    note="Trusted: Coq kernel + vm_compute, extraction cross-checked against vm_compute, the Python harness (canonical numbering of ids and label names).  Two defect classes of the unmodified code are recorded as known findings (shared terminal-edge ids -> ValueError; implicit nonterminal-edge ids -> TypeError).",
+    note="Trusted: Coq kernel + vm_compute, extraction cross-checked against vm_compute, the Python harness (canonical numbering of ids and label names).  The two defects found earlier (shared terminal-edge ids -> ValueError; implicit nonterminal-edge ids -> TypeError) are fixed in /repo 00f91d1; the model follows the repaired code and the inputs that triggered them are part of the ordinary stream.",
     technique="Coq proof (model + theorems) + model/implementation correspondence with verified-spec oracles",
     design_ref="DESIGN.md section 6, C17")
